@@ -9,6 +9,11 @@ import (
 	"strings"
 )
 
+var edFields = map[string]struct {
+	lean string
+	cat  cat
+}{"err": {"err", cErr}, "Ctx": {"c", cCtx}, "Flags": {"fl", cCond}}
+
 var ctxFields = map[string]struct {
 	lean string
 	cat  cat
@@ -69,6 +74,10 @@ func (t *itr) expr(e ast.Expr) (string, cat) {
 	switch e := e.(type) {
 	case *ast.ParenExpr:
 		return t.expr(e.X)
+	case *ast.BasicLit:
+		if e.Kind == token.INT {
+			return e.Value, cInt // synthetic literal (x++ is x = x + 1)
+		}
 	case *ast.Ident:
 		switch e.Name {
 		case "true", "false":
@@ -97,6 +106,9 @@ func (t *itr) expr(e ast.Expr) (string, cat) {
 			if v := t.env.vars[id]; v != nil && v.kind == vVal && (v.cat == cInt) {
 				return id, cInt
 			}
+			if v := t.env.vars[id]; v != nil && v.cat == cCtx {
+				return id, cCtx // `*nc`: a copy of the context
+			}
 		}
 		return t.fail("dereference %s", exprString(e)), cUnknown
 	case *ast.SelectorExpr:
@@ -110,6 +122,11 @@ func (t *itr) expr(e ast.Expr) (string, cat) {
 			return t.fail("context field %s", e.Sel.Name), cUnknown
 		case cDecPtr, cDec:
 			return t.readField(e.X, e.Sel.Name)
+		case cED, cEDPtr:
+			if f, ok := edFields[e.Sel.Name]; ok {
+				x, _ := t.expr(e.X)
+				return x + "." + f.lean, f.cat
+			}
 		}
 		return t.fail("selector %s", exprString(e)), cUnknown
 	case *ast.UnaryExpr:
@@ -127,6 +144,29 @@ func (t *itr) expr(e ast.Expr) (string, cat) {
 		return t.fail("unary %s", e.Op), cUnknown
 	case *ast.BinaryExpr:
 		return t.binary(e)
+	case *ast.CompositeLit:
+		if identName(e.Type) == "ErrDecimal" {
+			fs := map[string]string{}
+			for _, el := range e.Elts {
+				kv, ok := el.(*ast.KeyValueExpr)
+				f, okf := edFields[identName(kv.Key)]
+				if !ok || !okf {
+					return t.fail("ErrDecimal literal"), cUnknown
+				}
+				fs[f.lean] = t.exprAs(kv.Value, f.cat)
+			}
+			if fs["c"] == "" {
+				return t.fail("ErrDecimal literal without a context"), cUnknown
+			}
+			var parts []string
+			for _, k := range []string{"c", "fl", "err"} {
+				if v, ok := fs[k]; ok {
+					parts = append(parts, k+" := "+v)
+				}
+			}
+			return "({ " + strings.Join(parts, ", ") + " } : ED)", cED
+		}
+		return t.fail("composite literal"), cUnknown
 	case *ast.CallExpr:
 		rs, cs := t.call(e, false)
 		if len(rs) != 1 || rs[0] == droppedResult {
@@ -250,6 +290,14 @@ func (t *itr) binary(e *ast.BinaryExpr) (string, cat) {
 		b := t.asSrc(rb, "pointer comparison")
 		op := map[token.Token]string{token.EQL: "==", token.NEQ: "!="}[e.Op]
 		return "(" + a + " " + op + " " + b + ")", cBool
+	}
+	if (e.Op == token.EQL || e.Op == token.NEQ) && xc == cCtx && identName(e.Y) == "nil" {
+		// the model's contexts are values: a *Context is never nil
+		t.expr(e.X)
+		if e.Op == token.NEQ {
+			return "true", cBool
+		}
+		return "false", cBool
 	}
 	if (e.Op == token.EQL || e.Op == token.NEQ) && xc == cErr && identName(e.Y) == "nil" {
 		x, _ := t.expr(e.X)
@@ -456,7 +504,14 @@ func (t *itr) call(e *ast.CallExpr, stmt bool) ([]string, []cat) {
 				bv := t.readBig(b)
 				return one(fmt.Sprintf("(Apd.shouldAddOne %s %s %s %s)", m, bv, n, h), cBool)
 			}
+		case cED, cEDPtr:
+			if ok := t.edKernel(f.X, f.Sel.Name, e.Args); ok {
+				return []string{droppedResult}, []cat{cUnit}
+			}
 		case cCtx:
+			if rs, cs, ok := t.ctxKernel(f.X, f.Sel.Name, e.Args); ok {
+				return rs, cs
+			}
 			if f.Sel.Name == "WithPrecision" && len(e.Args) == 1 {
 				// kernel: a copy of the context with another precision
 				cx, _ := t.expr(f.X)
@@ -493,10 +548,22 @@ func (t *itr) callSig(sig *isig, recv ast.Expr, args []ast.Expr, stmt bool) ([]s
 		actuals = append(actuals, recv)
 	}
 	actuals = append(actuals, args...)
+	// f(g(…)): the results of g are the arguments
+	var spread []string
+	if len(args) == 1 && len(sig.params)-boolInt(sig.hasRecv) > 1 {
+		if inner, ok := args[0].(*ast.CallExpr); ok {
+			rs, _ := t.call(inner, false)
+			if len(rs) != len(sig.params)-boolInt(sig.hasRecv) {
+				t.fail("call of %s with the results of %s: arity", sig.key, exprString(inner))
+				return []string{"sorryUnsupported"}, []cat{cUnknown}
+			}
+			spread = rs
+		}
+	}
 	// addresses of local Decimals: the callee is specialised to them
 	var locIdx []int
 	for i, p := range sig.params {
-		if p.cat == cDecPtr && i < len(actuals) && identName(actuals[i]) != "nil" {
+		if p.cat == cDecPtr && (p.kind == pCell || p.kind == pOptCell) && i < len(actuals) && identName(actuals[i]) != "nil" {
 			a := actuals[i]
 			isLoc := false
 			if u, ok := a.(*ast.UnaryExpr); ok && u.Op == token.AND {
@@ -529,6 +596,10 @@ func (t *itr) callSig(sig *isig, recv ast.Expr, args []ast.Expr, stmt bool) ([]s
 	var deferred []int
 	np := len(sig.params)
 	for i, p := range sig.params {
+		if spread != nil && !(sig.hasRecv && i == 0) {
+			as = append(as, spread[i-boolInt(sig.hasRecv)])
+			continue
+		}
 		if sig.variadic && i == np-1 {
 			var xs []string
 			for _, a := range actuals[i:] {
@@ -569,6 +640,31 @@ func (t *itr) callSig(sig *isig, recv ast.Expr, args []ast.Expr, stmt bool) ([]s
 			}
 			as = append(as, r.name)
 			wbs = append(wbs, wb{id: r.name, k: pDecIO})
+		case pBigIn:
+			b := t.bigRef(a)
+			v := t.readBig(b)
+			if sg, ok := t.signOf(b); ok {
+				as = append(as, "(bigInt "+sg+" "+v+")")
+			} else {
+				as = append(as, "("+v+" : Int)")
+			}
+		case pEDIO:
+			id := identName(a)
+			if u, ok := a.(*ast.UnaryExpr); ok && u.Op == token.AND {
+				id = identName(u.X)
+			}
+			v := t.env.vars[id]
+			if v == nil || v.cat != cED || v.kind != vVal {
+				t.fail("call of %s: the ErrDecimal must be a local", sig.key)
+			}
+			as = append(as, id)
+			wbs = append(wbs, wb{id: id, k: pEDIO})
+		case pDecIn:
+			r := t.decRef(a)
+			if r.kind != "local" {
+				t.fail("call of %s: argument %s must be a local Decimal", sig.key, p.name)
+			}
+			as = append(as, r.name)
 		case pOptCell:
 			r := t.decRef(a)
 			switch r.kind {
@@ -692,20 +788,116 @@ func (t *itr) callSig(sig *isig, recv ast.Expr, args []ast.Expr, stmt bool) ([]s
 				t.define(w.id, cInt, vVal, v)
 			case pDecIO:
 				t.define(w.id, cDec, vVal, v)
+			case pEDIO:
+				t.define(w.id, cED, vVal, v)
 			}
 		}
 	}
 	return rs, cs
 }
 
+func boolInt(b bool) int {
+	if b {
+		return 1
+	}
+	return 0
+}
+
 // droppedResult stands for a Go result that is one of the callee's own pointers (its receiver, a *BigInt parameter)
 const droppedResult = "\x00dropped"
+
+// ctxOps: the value-level model (Model/*.lean) of the Context methods, used when every Decimal involved is a local
+// or a package constant (no heap access at all), as Imp/Ops.lean and Imp/TransOps.lean do
+var ctxOps = map[string]struct {
+	fn    string
+	extra string
+	pair  bool // returns Dec × Cond (a Condition result) instead of Out (Condition, error)
+}{
+	"round": {"Apd.ctxRound", "", true},
+	"Mul":   {"Apd.mulOp", "", false}, "Add": {"Apd.addOp", " false", false}, "Sub": {"Apd.addOp", " true", false},
+	"Quo": {"Apd.quoOp", "", false}, "Abs": {"Apd.absOp", "", false}, "Neg": {"Apd.negOp", "", false},
+	"Round": {"Apd.roundOp", "", false}, "Rem": {"Apd.remOp", "", false}, "QuoInteger": {"Apd.quoIntegerOp", "", false},
+}
+
+// ctxKernel: `c.Op(&d, &x, …)` with every Decimal argument a local or a constant
+func (t *itr) ctxKernel(recv ast.Expr, name string, args []ast.Expr) ([]string, []cat, bool) {
+	op, ok := ctxOps[name]
+	if !ok || len(args) == 0 || !t.allLocalDecArgs(args) {
+		return nil, nil, false
+	}
+	for _, a := range args {
+		if ty := goType(a); ty == nil || classify(ty) != cDecPtr {
+			return nil, nil, false
+		}
+	}
+	dst := t.decRef(args[0])
+	if dst.kind != "local" {
+		return nil, nil, false
+	}
+	cx, _ := t.expr(recv)
+	app := op.fn + " " + cx
+	for _, a := range args[1:] {
+		r := t.decRef(a)
+		if r.kind != "local" && r.kind != "const" {
+			return nil, nil, false
+		}
+		app += " " + r.name
+	}
+	app += op.extra
+	o := t.fresh()
+	t.emit("let %s := %s", o, app)
+	if op.pair {
+		t.define(dst.name, cDec, vVal, o+".1")
+		return []string{o + ".2"}, []cat{cCond}, true
+	}
+	t.define(dst.name, cDec, vVal, o+".d")
+	return []string{o + ".fl", o + ".err"}, []cat{cCond, cErr}, true
+}
+
+// edKernel: `ed.Op(&d, &x, …)` with every Decimal argument a local or a constant: `ED.step` of Model/Trans.lean (the
+// wrapper skipped after an error, else the value-level operation under `ed.Ctx`, flags accumulated, error recorded)
+func (t *itr) edKernel(recv ast.Expr, name string, args []ast.Expr) bool {
+	op, ok := ctxOps[name]
+	if !ok || op.pair || len(args) == 0 || !t.allLocalDecArgs(args) {
+		return false
+	}
+	ed := identName(recv)
+	if v := t.env.vars[ed]; v == nil || v.cat != cED || v.kind != vVal {
+		return false
+	}
+	for _, a := range args {
+		if ty := goType(a); ty == nil || classify(ty) != cDecPtr {
+			return false
+		}
+	}
+	dst := t.decRef(args[0])
+	if dst.kind != "local" {
+		return false
+	}
+	app := "fun c => " + op.fn + " c"
+	for _, a := range args[1:] {
+		r := t.decRef(a)
+		if r.kind != "local" && r.kind != "const" {
+			return false
+		}
+		app += " " + r.name
+	}
+	app += op.extra
+	o := t.fresh()
+	t.emit("let %s := Apd.ED.step %s %s (%s)", o, ed, dst.name, app)
+	t.define(ed, cED, vVal, o+".1")
+	t.define(dst.name, cDec, vVal, o+".2")
+	return true
+}
 
 // allLocalDecArgs: every *Decimal argument is a local or a package constant (then the method of a local receiver
 // is a value-level kernel)
 func (t *itr) allLocalDecArgs(args []ast.Expr) bool {
 	for _, a := range args {
 		if ty := goType(a); ty != nil && classify(ty) == cDecPtr {
+			if call, ok := a.(*ast.CallExpr); ok && identName(call.Fun) == "New" {
+				continue
+			}
 			id := identName(a)
 			if u, ok := a.(*ast.UnaryExpr); ok && u.Op == token.AND {
 				id = identName(u.X)
@@ -768,12 +960,32 @@ func (t *itr) localDecMethod(recv ast.Expr, name string, args []ast.Expr) ([]str
 		return nil, nil
 	case name == "IsZero" && len(args) == 0:
 		return one("(Apd.Dec.isZero "+r.name+")", cBool)
+	case name == "NumDigits" && len(args) == 0:
+		return one("(Apd.ndigits "+r.name+".coeff : Int)", cInt)
 	case name == "Sign" && len(args) == 0:
 		return one("(Apd.Dec.sign "+r.name+")", cInt)
 	case name == "Cmp" && len(args) == 1:
 		return one("(Apd.Dec.cmp "+r.name+" "+valArg(args[0])+")", cInt)
 	}
+	// any other method: the translated function, specialised to the local receiver
+	if rt := goType(recv); rt != nil {
+		if n, ok := derefNamed(rt); ok {
+			if sig := impSigs[n+"_"+name]; sig != nil {
+				return t.callSig(sig, recv, args, false)
+			}
+		}
+	}
 	return one(t.fail("method %s of a local Decimal", name), cUnknown)
+}
+
+func derefNamed(ty types.Type) (string, bool) {
+	if p, ok := ty.(*types.Pointer); ok {
+		ty = p.Elem()
+	}
+	if n, ok := ty.(*types.Named); ok {
+		return n.Obj().Name(), true
+	}
+	return "", false
 }
 
 // bigMethod: BigInt methods read their operands in order, then write the receiver.
@@ -798,6 +1010,11 @@ func (t *itr) bigMethod(recv ast.Expr, name string, args []ast.Expr) ([]string, 
 			return one("(bigSign "+s+" "+v+")", cInt)
 		}
 		return one("(natSign "+v+")", cInt)
+	case name == "Bit" && len(args) == 1:
+		if tv, ok := info.Types[args[0]]; ok && tv.Value != nil && tv.Value.ExactString() == "0" {
+			return one("("+t.readBig(z)+" % 2)", cNat)
+		}
+		return one(t.fail("BigInt.Bit of a non-zero index"), cUnknown)
 	case name == "IsUint64" && len(args) == 0:
 		t.noSign(z, "IsUint64")
 		return one("(decide ("+t.readBig(z)+" < 18446744073709551616))", cBool)
@@ -821,9 +1038,30 @@ func (t *itr) bigMethod(recv ast.Expr, name string, args []ast.Expr) ([]string, 
 		return one("(Apd.cmpNat "+a+" "+b+")", cInt)
 	case name == "Set" && len(args) == 1:
 		x := arg(0)
-		t.noSign(x, "Set")
+		sx, has := t.signOf(x)
 		t.writeBig(z, t.readBig(x))
-		clearSign()
+		if has {
+			t.defineSign(z.place(), sx)
+		} else {
+			clearSign()
+		}
+		return nil, nil
+	case name == "Rsh" && len(args) == 2:
+		x := arg(0)
+		n, nc := t.expr(args[1])
+		if nc != cNat && nc != cInt {
+			return one(t.fail("Rsh count"), cUnknown)
+		}
+		sx, has := t.signOf(x)
+		v := t.readBig(x)
+		if has {
+			// arithmetic shift of a signed value: the magnitude of floor(x / 2^n)
+			t.writeBig(z, "(bigRshMag "+sx+" "+v+" "+n+")")
+			t.defineSign(z.place(), sx)
+		} else {
+			t.writeBig(z, "("+v+" / 2 ^ "+n+")")
+			clearSign()
+		}
 		return nil, nil
 	case name == "SetInt64" && len(args) == 1:
 		x, _ := t.expr(args[0])
